@@ -295,3 +295,42 @@ def _json_default(o):
 def rng_for(seed, *parts):
     h = hashlib.sha256(("%d|" % seed + "|".join(str(p) for p in parts)).encode()).digest()
     return random.Random(int.from_bytes(h[:8], "big"))
+
+
+def process_quiescent(pid, wait=6.0):
+    """Decides whether a process that exceeded its watchdog is provably stuck (a hang) rather than slow.
+
+    Two samples `wait` seconds apart must show: the same set of threads; no read/write system calls and no
+    bytes transferred in between (/proc/<pid>/io); no child processes; and every thread but at most one asleep
+    with an unchanged context-switch count. One busy thread is tolerated because fclones keeps a status-line
+    refresh thread that spins in sleep(0) while a hidden progress bar exists; that thread does no I/O."""
+    def snap():
+        out = {}
+        try:
+            for t in os.listdir("/proc/%d/task" % pid):
+                with open("/proc/%d/task/%s/stat" % (pid, t)) as f:
+                    state = f.read().rsplit(")", 1)[1].split()[0]
+                sw = 0
+                with open("/proc/%d/task/%s/status" % (pid, t)) as f:
+                    for l in f:
+                        if l.startswith("voluntary_ctxt_switches") or l.startswith("nonvoluntary_ctxt_switches"):
+                            sw += int(l.split()[1])
+                out[t] = (state, sw)
+            with open("/proc/%d/io" % pid) as f:
+                io = f.read()
+        except OSError:
+            return None
+        return out, io
+    a = snap()
+    time.sleep(wait)
+    b = snap()
+    if not a or not b or set(a[0]) != set(b[0]) or a[1] != b[1]:
+        return False
+    try:
+        kids = subprocess.run(["pgrep", "-P", str(pid)], stdout=subprocess.PIPE).stdout.split()
+    except Exception:
+        kids = []
+    if kids:
+        return False
+    moving = [t for t in b[0] if not (b[0][t][0] == "S" and a[0][t] == b[0][t])]
+    return len(moving) <= 1
